@@ -1385,4 +1385,70 @@ theorem bossIn_closing_silent (b : BossD) (x : BIn) (hx : closingIn x = true) :
   cases x <;> simp [closingIn] at hx <;> cases st <;>
     simp [bossIn, bossStep, Boss.table, bossOuts, bossOut, wRecvs_cons, sSends_cons]
 
+/-! ## a process with several wormhole pairs
+
+Several pairs of wormholes live in one process (and talk to one server, each pair through its own mailbox).  The
+model gives every pair its own `Sys`: an action on pair `p` is `Sys.step` on the `p`-th system and nothing else —
+that is what "every Boss / Mailbox / … is an object of its own" means for the composed model. -/
+
+/-- one action of the process: `(p, act)` = `act` happens in pair `p` (an index outside the process: nothing) -/
+def procStep (C : Crypto) (ps : List Sys) (x : Nat × SAct) : List Sys :=
+  match ps[x.1]? with
+  | some s => ps.set x.1 (Sys.step C s x.2)
+  | none => ps
+
+def procRun (C : Crypto) (ps : List Sys) (acts : List (Nat × SAct)) : List Sys := acts.foldl (procStep C) ps
+
+/-- the actions of pair `p`, in the order they happen in the process schedule -/
+def actsOf (p : Nat) (acts : List (Nat × SAct)) : List SAct :=
+  acts.filterMap (fun x => if x.1 = p then some x.2 else none)
+
+theorem procStep_proj (C : Crypto) (ps : List Sys) (x : Nat × SAct) (p : Nat) :
+    (procStep C ps x)[p]? = (ps[p]?).map (fun s => if x.1 = p then Sys.step C s x.2 else s) := by
+  unfold procStep
+  cases hx : ps[x.1]? with
+  | none =>
+    by_cases hp : x.1 = p
+    · subst hp; simp [hx]
+    · cases hq : ps[p]? <;> simp [hp]
+  | some s =>
+    by_cases hp : x.1 = p
+    · subst hp
+      have hlt : x.1 < ps.length := by
+        rcases Nat.lt_or_ge x.1 ps.length with h | h
+        · exact h
+        · rw [List.getElem?_eq_none h] at hx; cases hx
+      simp [hx, List.getElem?_set_self hlt]
+    · rw [List.getElem?_set_ne hp]
+      cases hq : ps[p]? <;> simp [hp]
+
+/-- **projection.**  Whatever the interleaving of the pairs' actions in the process schedule, the state of pair `p`
+    is the state the pair reaches on its own actions alone. -/
+theorem procRun_proj (C : Crypto) (acts : List (Nat × SAct)) (ps : List Sys) (p : Nat) :
+    (procRun C ps acts)[p]? = (ps[p]?).map (fun s => Sys.run C s (actsOf p acts)) := by
+  induction acts generalizing ps with
+  | nil =>
+    simp only [procRun, actsOf, Sys.run, List.foldl_nil, List.filterMap_nil]
+    cases ps[p]? <;> rfl
+  | cons x xs ih =>
+    have := ih (procStep C ps x)
+    simp only [procRun, List.foldl_cons] at this ⊢
+    rw [this, procStep_proj]
+    cases hq : ps[p]? with
+    | none => simp
+    | some s =>
+      by_cases hp : x.1 = p
+      · simp [hp, actsOf, Sys.run]
+      · simp [hp, actsOf, Sys.run]
+
+theorem procRun_length (C : Crypto) (acts : List (Nat × SAct)) (ps : List Sys) :
+    (procRun C ps acts).length = ps.length := by
+  induction acts generalizing ps with
+  | nil => rfl
+  | cons x xs ih =>
+    simp only [procRun, List.foldl_cons] at ih ⊢
+    rw [ih]
+    unfold procStep
+    cases ps[x.1]? <;> simp
+
 end WV.Proofs.C03
